@@ -231,9 +231,9 @@ def h_route_independence(ctx, shape, ends, first):
     def mk(which):
         out = []
         if 1 in which:
-            out.append(request('1', 'A', 'C', inc1[0], inc1[1]))
+            out.append(request('1', 'A', 'C', inc1[0], inc1[1], omit_lists=(first == 0)))
         if 2 in which:
-            out.append(request('2', ends[0], ends[1], inc2[0], inc2[1]))
+            out.append(request('2', ends[0], ends[1], inc2[0], inc2[1], omit_lists=(not inc2[0])))
         return out
 
     def run(which, rev=False):
@@ -254,3 +254,7 @@ def h_route_independence(ctx, shape, ends, first):
         for rid in got:
             ctx.prove(f'request {rid}: same route and same blocking reason as alone', got[rid] == alone[rid],
                       info=dict(info, reversed_order=rev, batch=got[rid], alone=alone[rid]))
+            if not (inc1 if rid == '1' else inc2)[0]:
+                # a request without include list on a connected mesh is always routed, whatever was computed before it
+                ctx.prove(f'request {rid} (no include list): routed, not blocked', bool(got[rid][0]) and got[rid][1] is None,
+                          info=dict(info, reversed_order=rev, batch=got[rid]))
